@@ -127,8 +127,29 @@ structure Repo where
   push : PushKind
   deriving DecidableEq, Repr, FromJson, ToJson
 
+/-- which `notation.Signer` signs -/
+inductive Impl
+  | mock        -- the harness's own signer (scripted answers: `kind`)
+  | generic     -- signer.GenericSigner: the library builds and signs the payload with a local key
+  | pluginSig   -- signer.PluginSigner over a signature-generator plugin (the library builds the payload, the plugin signs bytes)
+  | pluginEnv   -- signer.PluginSigner over an envelope-generator plugin (the PLUGIN builds the envelope: `faith`)
+  deriving DecidableEq, Repr, FromJson, ToJson
+
+/-- what an envelope-generator plugin signs, relative to the payload it was asked to sign -/
+inductive Faith
+  | faithful        -- exactly the payload it was given
+  | dropAll         -- right media type / digest / size, no annotations at all
+  | dropOne         -- the (alphabetically) first annotation is missing
+  | alterOne        -- the first annotation has another value
+  | addOne          -- one more annotation (permitted: plugins may append)
+  | wrongDigest | wrongSize | wrongMediaType
+  deriving DecidableEq, Repr, FromJson, ToJson
+
 structure SignerCfg where
-  kind : SignerKind
+  impl : Impl
+  kind : SignerKind       -- mock only
+  faith : Faith           -- pluginEnv only
+  config : AnnMap         -- plugin signers: the PluginSigner's own plugin config (defaults)
   thumbs : List Text      -- lower-case hex SHA-256 of each certificate of the signing chain, leaf first
   time : Nat              -- signing time, Unix seconds
   pluginAnn : AnnMap      -- the signer's PluginAnnotations() (empty: none / nil)
@@ -148,6 +169,8 @@ structure Step where
   target : Nat          -- sign: the artifact whose digest a digest reference spells
   md : AnnMap           -- sign: SignOptions.UserMetadata
   opts : Opts           -- sign
+  signer : Nat          -- sign: which of the signers signs
+  cfg : Nat             -- sign: which of the caller's PluginConfig maps is passed in SignerSignOptions
   deriving DecidableEq, Repr, FromJson, ToJson
 
 structure Input where
@@ -155,8 +178,8 @@ structure Input where
   arts : List Art         -- the artifacts in the repository
   tag : Option Nat        -- the artifact the tag names at the start (none: no such tag)
   repo : Repo
-  signer : SignerCfg
-  pluginConfig : AnnMap   -- SignerSignOptions.PluginConfig, the same map for every call
+  signers : List SignerCfg
+  pluginConfigs : List AnnMap   -- the caller's PluginConfig map objects (a step passes one of them)
   steps : List Step
   deriving Repr, FromJson, ToJson
 
@@ -184,6 +207,8 @@ structure CallObs where
   signed : Option DescObs        -- the descriptor the signer received
   subject : Option DescObs       -- the subject PushSignature received
   pushAnn : Option AnnMap        -- the annotations PushSignature received
+  payload : Option DescObs       -- the target artifact inside the envelope PushSignature received (what was really signed)
+  pluginCfg : Option AnnMap      -- plugin signers: the plugin config the plugin saw in its requests during the call
   returned : Returned
   repoViewSame : Bool            -- the repository resolves the tag and every digest exactly as just before the call
   handedSame : Bool              -- every descriptor Resolve has handed out so far still has the contents it had then
@@ -227,9 +252,9 @@ structure World where
   sigs : List Nat                   -- signatures attached to each artifact
   deriving Repr
 
-/-- set-up: cell k = the repository's annotation map of artifact k, cell n = PluginConfig,
-cell n+1+j = UserMetadata of step j (n = number of artifacts) -/
-def initCells (i : Input) : List AnnMap := i.arts.map (·.ann) ++ [i.pluginConfig] ++ i.steps.map (·.md)
+/-- set-up: cell k = the repository's annotation map of artifact k, cell n+c = the caller's PluginConfig map c,
+cell n+m+j = UserMetadata of step j (n = number of artifacts, m = number of PluginConfig maps) -/
+def initCells (i : Input) : List AnnMap := i.arts.map (·.ann) ++ i.pluginConfigs ++ i.steps.map (·.md)
 
 def initWorld (i : Input) : World :=
   { heap := { cells := initCells i }, tag := i.tag, handed := [], sigs := i.arts.map (fun _ => 0) }
@@ -307,6 +332,48 @@ def bump : Nat → List Nat → List Nat
   | 0, x :: r => (x + 1) :: r
   | k + 1, x :: r => x :: bump k r
 
+def dfltSigner : SignerCfg :=
+  { impl := .mock, kind := .fails, faith := .faithful, config := [], thumbs := [], time := 0, pluginAnn := [] }
+def signerOf (i : Input) (c : Step) : SignerCfg := i.signers.getD c.signer dfltSigner
+
+def isPlugin : Impl → Bool
+  | .pluginSig | .pluginEnv => true
+  | _ => false
+
+/-- the scripted answer counts for the mock only; the library's own signers answer with envelope + SignerInfo -/
+def effKind (sg : SignerCfg) : SignerKind := if sg.impl == .mock then sg.kind else .ok
+
+/-- the annotation the unfaithful plugin adds / the mark it leaves on a value -/
+def addedKey : Text := "zz.added.by.plugin".toList
+def alteredMark : Text := "'".toList
+
+/-- the annotations an envelope-generator plugin signs when asked to sign `req` -/
+def applyFaith : Faith → AnnMap → AnnMap
+  | .dropAll, _ => []
+  | .dropOne, req => req.drop 1
+  | .alterOne, [] => []
+  | .alterOne, (k, v) :: r => (k, v ++ alteredMark) :: r
+  | .addOne, req => put addedKey ['1'] req
+  | _, req => req
+
+/-- `isDescriptorSubset` on annotations: the signed payload has every requested key with the requested value -/
+def covers (req pay : AnnMap) : Bool := req.all (fun kv => look kv.1 pay == look kv.1 req)
+
+/-- the annotations of the target artifact inside the envelope the signer hands back, when asked to sign a descriptor
+with annotations `req`; `none`: the signer returns an error (the mock says so; PluginSigner refuses an envelope whose
+payload is not over the same media type / digest / size or does not cover the requested annotations) -/
+def payloadOf (sg : SignerCfg) (req : AnnMap) : Option AnnMap :=
+  match sg.impl with
+  | .mock => if sg.kind == .fails then none else some req
+  | .generic | .pluginSig => some req
+  | .pluginEnv =>
+    match sg.faith with
+    | .wrongDigest | .wrongSize | .wrongMediaType => none
+    | f => if covers req (applyFaith f req) then some (applyFaith f req) else none
+
+/-- resolved annotations + user metadata; also `mergeConfig`: defaults overridden by the per-call entries -/
+def merged (base md : AnnMap) : AnnMap := md.foldl (fun m kv => put kv.1 kv.2 m) base
+
 /-- what a call showed: artifact index + annotation contents for the descriptors -/
 structure Trace where
   ok : Bool := false
@@ -314,24 +381,26 @@ structure Trace where
   signed : Option (Nat × AnnMap) := none
   subject : Option (Nat × AnnMap) := none
   pushAnn : Option AnnMap := none
+  payload : Option (Nat × AnnMap) := none
+  pluginCfg : Option AnnMap := none
   returnedResolved : Bool := false
   deriving Repr
 
 /-- `generateAnnotations` + `PushSignature` (after the signer has answered); `k` = the resolved artifact -/
-def annotateAndPush (i : Input) (w : World) (t : Trace) (resolved : MapRef) (k : Nat) : World × Trace :=
-  match i.signer.kind with
+def annotateAndPush (i : Input) (sg : SignerCfg) (pay : AnnMap) (w : World) (t : Trace) (resolved : MapRef) (k : Nat) : World × Trace :=
+  match effKind sg with
   | .fails => (w, t)
   | .nilInfo => (w, t)
   | kind =>
     -- the map `PluginAnnotations()` returns is made by the signer during `Sign` (PluginSigner stores the
     -- plugin's response); when it is nil, `generateAnnotations` makes one: a new cell either way
-    let (h1, a) := w.heap.alloc i.signer.pluginAnn
+    let (h1, a) := w.heap.alloc sg.pluginAnn
     let ann : MapRef := some a
-    let h2 := h1.write ann Facts.c11ThumbprintKey (jsonArray i.signer.thumbs)
+    let h2 := h1.write ann Facts.c11ThumbprintKey (jsonArray sg.thumbs)
     if kind == .noTime then ({ w with heap := h2 }, t)
     else
-      let h3 := h2.write ann Facts.c11CreatedKey (rfc3339 i.signer.time)
-      let t' := { t with subject := some (k, h3.read resolved), pushAnn := some (h3.read ann) }
+      let h3 := h2.write ann Facts.c11CreatedKey (rfc3339 sg.time)
+      let t' := { t with subject := some (k, h3.read resolved), pushAnn := some (h3.read ann), payload := some (k, pay) }
       match i.repo.push with
       | .fails => ({ w with heap := h3 }, t')
       | .indexDeleteFails => ({ w with heap := h3, sigs := bump k w.sigs }, { t' with returnedResolved := true })
@@ -353,7 +422,16 @@ def signOCI (i : Input) (w : World) (c : Step) : World × Trace :=
         let (h2, toSign, ok) := addUserMetadata h1 resolved c.md
         let w2 := { w1 with heap := h2 }
         if !ok then (w2, t)
-        else annotateAndPush i w2 { t with signed := some (k, h2.read toSign) } resolved k
+        else
+          let sg := signerOf i c
+          let req := h2.read toSign
+          -- PluginSigner.mergeConfig: the signer's defaults, overridden by what it READS from the caller's map
+          let seen : Option AnnMap :=
+            if isPlugin sg.impl then some (merged sg.config (h2.read (some (i.arts.length + c.cfg)))) else none
+          let t1 : Trace := { t with signed := some (k, req), pluginCfg := seen }
+          match payloadOf sg req with
+          | none => (w2, t1)
+          | some pay => annotateAndPush i sg pay w2 t1 resolved k
 
 def noArt : Art := { mediaType := [], digest := [], size := 0, ann := [] }
 def artAt (i : Input) (k : Nat) : Art := i.arts.getD k noArt
@@ -365,11 +443,12 @@ def mkDesc (i : Input) (p : Nat × AnnMap) : DescObs :=
 def observe (i : Input) (tagBefore : Option Nat) (w : World) (t : Trace) : CallObs :=
   { ok := t.ok, resolveArg := t.resolveArg,
     signed := t.signed.map (mkDesc i), subject := t.subject.map (mkDesc i), pushAnn := t.pushAnn,
+    payload := t.payload.map (mkDesc i), pluginCfg := t.pluginCfg,
     returned := if t.returnedResolved then .resolved else .zero,
     repoViewSame := w.tag == tagBefore && w.heap.cells.take i.arts.length == i.arts.map (·.ann),
     handedSame := w.handed.all (fun (r, snap) => w.heap.read r == snap),
-    optsSame := w.heap.read (some i.arts.length) == i.pluginConfig &&
-      (w.heap.cells.drop (i.arts.length + 1)).take i.steps.length == i.steps.map (·.md),
+    optsSame := (w.heap.cells.drop i.arts.length).take (i.pluginConfigs.length + i.steps.length) ==
+      i.pluginConfigs ++ i.steps.map (·.md),
     sigCounts := w.sigs }
 
 def runSteps (i : Input) : World → List Step → List CallObs
@@ -392,11 +471,14 @@ def distinctKeys : AnnMap → Bool
   | (k, _) :: r => !(r.any (fun kv => kv.1 == k)) && distinctKeys r
 
 /-- well-formedness of an input: there is an artifact, the tag and every step name existing artifacts, and
-every UserMetadata map has pairwise different keys -/
+every UserMetadata and PluginConfig map has pairwise different keys, and every step passes one of the caller's
+PluginConfig maps -/
 def wf (i : Input) : Bool :=
   decide (0 < i.arts.length) &&
   (match i.tag with | none => true | some k => decide (k < i.arts.length)) &&
-  i.steps.all (fun s => distinctKeys s.md && decide (s.to < i.arts.length) && decide (s.target < i.arts.length))
+  i.steps.all (fun s => distinctKeys s.md && decide (s.to < i.arts.length) && decide (s.target < i.arts.length) &&
+    decide (s.cfg < i.pluginConfigs.length)) &&
+  i.pluginConfigs.all distinctKeys
 
 /-- the artifact the reference resolves to *now* (`tag`: what the tag names at the moment of the call) -/
 def resolvedArt (i : Input) (tag : Option Nat) (c : Step) : Option Nat :=
@@ -411,9 +493,6 @@ def resolvedAnn (i : Input) (c : Step) (k : Nat) : AnnMap :=
   match refArg c.ref with
   | .tag => (artAt i k).ann
   | _ => if i.repo.plainByDigest then [] else (artAt i k).ann
-
-/-- resolved annotations + user metadata -/
-def merged (base md : AnnMap) : AnnMap := md.foldl (fun m kv => put kv.1 kv.2 m) base
 
 def digestMismatch (c : Step) : Bool := refArg c.ref == .otherDigest
 def hasReserved (c : Step) : Bool := c.md.any (fun kv => isReservedSpec kv.1)
@@ -430,9 +509,21 @@ def reachesSigner (i : Input) (tag : Option Nat) (c : Step) : Option Nat :=
     | none => none
   else none
 
+/-- the annotations of the descriptor the signer is asked to sign: resolved annotations + user metadata -/
+def requested (i : Input) (c : Step) (k : Nat) : AnnMap := merged (resolvedAnn i c k) c.md
+
+/-- the caller's PluginConfig map the step passes -/
+def cfgOf (i : Input) (c : Step) : AnnMap := i.pluginConfigs.getD c.cfg []
+
+/-- the signer hands back an envelope (over a payload that covers the request) and a usable SignerInfo -/
+def delivers (i : Input) (c : Step) (k : Nat) : Bool :=
+  (payloadOf (signerOf i c) (requested i c k)).isSome && effKind (signerOf i c) == .ok
+
 /-- everything before the push passes -/
 def reachesPush (i : Input) (tag : Option Nat) (c : Step) : Option Nat :=
-  if i.signer.kind == .ok then reachesSigner i tag c else none
+  match reachesSigner i tag c with
+  | some k => if delivers i c k then some k else none
+  | none => none
 
 /-- does the call succeed? A function of the input, the call and what the tag names now - not of what was signed before. -/
 def expectedOk (i : Input) (tag : Option Nat) (c : Step) : Bool := (reachesPush i tag c).isSome && i.repo.push == .ok
@@ -446,8 +537,8 @@ def sigsAfter (i : Input) (tag : Option Nat) (c : Step) (before : List Nat) : Li
   | some k => bump k before
   | none => before
 
-def expectedPushAnn (i : Input) : AnnMap :=
-  put Facts.c11CreatedKey (rfc3339 i.signer.time) (put Facts.c11ThumbprintKey (jsonArray i.signer.thumbs) i.signer.pluginAnn)
+def expectedPushAnn (sg : SignerCfg) : AnnMap :=
+  put Facts.c11CreatedKey (rfc3339 sg.time) (put Facts.c11ThumbprintKey (jsonArray sg.thumbs) sg.pluginAnn)
 
 /-- the per-call clauses; `tag` = what the tag names at the call, `before` = signatures attached before the call -/
 structure CallVerdict where
@@ -459,6 +550,16 @@ structure CallVerdict where
   oneSignature : Bool
   succeedsIndependentOfHistory : Bool
   resolveAsked : Bool
+  signedPayload : Bool
+  pluginConfigMerged : Bool
+
+/-- over the observables alone: what is inside the pushed envelope is over the same media type / digest / size as the
+descriptor the signer was handed and has every annotation of it under its value -/
+def payloadCoversSigned (o : CallObs) : Bool :=
+  match o.payload, o.signed with
+  | some p, some d => p.mediaType == d.mediaType && p.digest == d.digest && p.size == d.size && covers d.ann p.ann
+  | some _, none => false
+  | none, _ => true
 
 def callVerdict (i : Input) (tag : Option Nat) (c : Step) (before : List Nat) (o : CallObs) : CallVerdict :=
   { signsResolvedPlusMetadata :=
@@ -467,7 +568,7 @@ def callVerdict (i : Input) (tag : Option Nat) (c : Step) (before : List Nat) (o
       o.subject == (reachesPush i tag c).map (fun k => mkDesc i (k, resolvedAnn i c k)) &&
       o.returned == (if (pushes i tag c).isSome then .resolved else .zero),
     pushedAnnotationsExact :=
-      o.pushAnn == (reachesPush i tag c).map (fun _ => expectedPushAnn i),
+      o.pushAnn == (reachesPush i tag c).map (fun _ => expectedPushAnn (signerOf i c)),
     refusals :=
       (match (if optsValid c.opts then resolvedArt i tag c else none) with
        | some k => !refused i c k
@@ -476,7 +577,17 @@ def callVerdict (i : Input) (tag : Option Nat) (c : Step) (before : List Nat) (o
     frame := o.repoViewSame && o.handedSame && o.optsSame,
     oneSignature := o.sigCounts == sigsAfter i tag c before && (!o.ok || o.subject.isSome),
     succeedsIndependentOfHistory := o.ok == expectedOk i tag c,
-    resolveAsked := o.resolveArg == (if optsValid c.opts then some (refArg c.ref) else none) }
+    resolveAsked := o.resolveArg == (if optsValid c.opts then some (refArg c.ref) else none),
+    -- what is inside the pushed envelope: over the same media type / digest / size as the descriptor the signer was
+    -- handed, and with every annotation of it (resolved annotations + user metadata) under its value
+    signedPayload :=
+      o.payload == (reachesPush i tag c).bind (fun k =>
+        (payloadOf (signerOf i c) (requested i c k)).map (fun p => mkDesc i (k, p))) &&
+      payloadCoversSigned o,
+    -- a plugin signer's plugin sees the signer's own config overridden by the caller's per-call entries - nothing else
+    pluginConfigMerged :=
+      o.pluginCfg == (reachesSigner i tag c).bind (fun _ =>
+        if isPlugin (signerOf i c).impl then some (merged (signerOf i c).config (cfgOf i c)) else none) }
 
 /-- fold a per-call clause over the history, threading what the tag names and the signature counts -/
 def allCalls (i : Input) (f : CallVerdict → Bool) : List Step → Option Nat → List Nat → List CallObs → Bool
@@ -504,7 +615,9 @@ def clauses (i : Input) (o : Obs) : Clauses :=
     ("frame", allCalls i (·.frame) i.steps i.tag z o.calls),
     ("one_signature_per_push", allCalls i (·.oneSignature) i.steps i.tag z o.calls),
     ("succeeds_independent_of_history", allCalls i (·.succeedsIndependentOfHistory) i.steps i.tag z o.calls),
-    ("resolve_asked_for_reference", allCalls i (·.resolveAsked) i.steps i.tag z o.calls) ]
+    ("resolve_asked_for_reference", allCalls i (·.resolveAsked) i.steps i.tag z o.calls),
+    ("signed_payload_covers_resolved_plus_metadata", allCalls i (·.signedPayload) i.steps i.tag z o.calls),
+    ("plugin_config_is_defaults_overridden_by_call", allCalls i (·.pluginConfigMerged) i.steps i.tag z o.calls) ]
 
 def Holds (i : Input) (o : Obs) : Bool := (clauses i o).holds
 
